@@ -5,12 +5,12 @@ from .solcommon import *
 def run(tier, seed, replay=None):
     rep = Report("C01", tier, seed)
     sun_selfcheck(rep)
-    args = ["--stride", 5] if tier == "thorough" else ["--years", 50, "--random", 3000]
+    args = ["--stride", 1] if tier == "thorough" else ["--years", 50, "--random", 3000]
     info, events = validate(rep, "C01", "c01", args, heap="10g" if tier == "thorough" else "6g")
     rep.distinct_nontrivial = len({(e["site"]["lat"], e["site"]["lon"], e["site"]["gmt"], e["date"]["dn"]) for e in events})
     rep.rule = ("one event = one public call (all latitudes incl. +-90, gmt on the half-hour grid within 6 h of lon/15, all 9 methods, "
                 "elevations -420..8848); dates: quick = the equinox week, month/year ends, leap days, solstices of 50 seeded years + 3000 seeded "
-                "random dates; thorough = every 5th calendar date 1600..2399 with a seeded phase + the strata; every event is non-trivial "
+                "random dates; thorough = EVERY calendar date 1600..2399 (292,194) + the strata; every event is non-trivial "
                 "(the ephemeris is evaluated at the reported Dhuhr); distinct = distinct (site, zone, date)")
     for i in (0, 1, len(events) // 2):
         rep.sample(events[i])
